@@ -93,54 +93,75 @@ def r1(repo, res):
            found="ok" if not late else "assigned after/around the update: " + ", ".join(ast.unparse(d.targets[0]) for d in late),
            key="defaults-before-update")
 
-    # (b) genotype(): every Profile construction forwards **params; dump route re-applies them
+    # (b) genotype() folded whole on every input route: the profile the stages see carries the typed values of the
+    #     parameters given to genotype(), whatever built or restored that profile
+    from checks._genotype import GenotypeModel, Scenario, events
+
     g = repo.func("genotype::genotype")
     res.analysed(g)
-    pk = g.args.kwarg.arg if g.args.kwarg else None
-    if pk is None:
-        res.ob("C18.R1", g, g, False, "genotype() takes **params", "no ** parameter", key="genotype-kwargs")
-        return
-    ctor = [x for x in calls_in(g) if call_name(x) in ("Profile", "Profile.load")]
-    res.floor("C18.R1", "Profile constructions in genotype()", len(ctor), 3)
-    for x in ctor:
-        fw = any(isinstance(v, ast.Name) and v.id == pk for v in star_kwargs(x))
-        res.ob("C18.R1", g, x, fw, expected=f"forwards **{pk}", found=ast.unparse(x)[:120],
-               clause="parameters set through the programming interface / command line reach the profile",
-               key="forward:" + call_name(x) + ":" + (ast.unparse(x.args[0]) if x.args else ""))
-    cg = cfg_of(g)
-    reapply = [x for x in find_calls(g, "update") if x.args and isinstance(x.args[0], ast.Name)
-               and x.args[0].id == pk and isinstance(x.func, ast.Attribute)]
-    stage = find_calls(g, "estimate_cn")
-    smp = [x for x in calls_in(g) if call_name(x) == "sam.Sample"]
-    for cn_given in (None, ["1", "1"]):
-        tag = "|cn" if cn_given else ""
-        removed = cg.prune(decide_with({kind_name(g): "dump", "cn_solution": cn_given}))
-        ok = bool(reapply) and bool(stage) and all(
-            cg.is_reachable(cg.node_of(r), removed) for r in reapply) and any(
-            cg.dominates(cg.node_of(r), cg.node_of(stage[0]), removed) for r in reapply)
-        res.ob("C18.R1", g, reapply[0] if reapply else g, ok,
-               expected=f"on the dump route profile.update({pk}) runs before the first stage" + (" (also with a user-given structure)" if cn_given else ""),
-               found="ok" if ok else "no dominating re-application of the parameters for kind == 'dump'",
-               key="dump-reapply" + tag)
-        # the re-application must come after the dump reader's resets: Sample(...) construction precedes it
-        if reapply and smp:
-            ok2 = all(any(cg.dominates(cg.node_of(s), cg.node_of(r), removed) for s in smp
-                          if cg.is_reachable(cg.node_of(s), removed)) for r in reapply if cg.is_reachable(cg.node_of(r), removed))
-            res.ob("C18.R1", g, reapply[0], ok2, expected="re-application happens after the sample (and its dump profile) is loaded",
-                   found="ok" if ok2 else "update precedes Sample construction", key="dump-reapply-order" + tag)
+    gm = GenotypeModel(repo)
+    given = {"gap": "0.3", "phase": "FALSE", "min_avg_coverage": "0.5", "max_minor_solutions": "3", "debug_novel": "true",
+             "display_format": "TRUE", "cn_max": "7", "minor_add": 2, "no_such_parameter": "x"}
+    typed = {"gap": 0.3, "phase": False, "min_avg_coverage": 0.5, "max_minor_solutions": 3, "debug_novel": True, "display_format": True,
+             "cn_max": 7, "minor_add": 2.0}
+    routes = [("sam", None), ("sam", ["1", "2"]), ("dump", None), ("dump", ["1", "2"]), ("vcf", None), ("pscan", None), ("", None)]
+    for kind, user_cn in routes:
+        label = f"kind={kind!r}" + (", structure given" if user_cn else "")
+        try:
+            k, v, trace, printed = gm.run(Scenario(kind=kind, avg_coverage=1.0, args=dict(output_file=None, cn_solution=user_cn), params=dict(given),
+                                                   profile_options={"gap": "0.1", "minor_miss": "2.5"}))
+        except Unfoldable as e:
+            res.err("C18.R1", f"genotype() outside the folding language: {e}")
+            return
+        cn_ev = events(trace, "estimate_cn")
+        mn_ev = events(trace, "estimate_minor")
+        if k != "return" or len(cn_ev) != 1:
+            res.ob("C18.R1", g, g, False, expected=f"{label}: the run completes with the given parameters (min_avg_coverage=0.5 admits depth 1.0)",
+                   found=f"{k} {str(v)[:80]}", clause="every documented model parameter set through ... the programming interface ... takes exactly the given value",
+                   key=f"route:{label}")
+            continue
+        seen = cn_ev[0][5]["profile"]
+        wrong = {p_: seen.get(p_) for p_, t in typed.items() if not (seen.get(p_) == t and type(seen.get(p_)) is type(t))}
+        ok = not wrong and len(mn_ev) == 1 and mn_ev[0][2] == 3
+        res.ob("C18.R1", g, g, ok, expected=f"{label}: the stages see {typed} (typed), and the minor stage is asked for 3 solutions",
+               found="ok" if ok else f"differs: {wrong}; max_solutions={mn_ev[0][2] if mn_ev else None}",
+               clause="every documented model parameter set through the command line, the programming interface or the options section of a profile file "
+                      "takes exactly the given value with the documented type", key=f"route:{label}")
+        sm = events(trace, "Sample")
+        at_load = sm[0][7] if sm else None
+        if kind != "dump":
+            wrong_l = {p_: (at_load or {}).get(p_) for p_, t in typed.items() if not ((at_load or {}).get(p_) == t and type((at_load or {}).get(p_)) is type(t))}
+            res.ob("C18.R1", g, g, at_load is not None and not wrong_l,
+                   expected=f"{label}: the profile handed to the sample loader already carries the given parameters (loading reads vcf_sample_idx, quality and mapping thresholds, ...)",
+                   found="ok" if at_load is not None and not wrong_l else f"at load time: {wrong_l if at_load is not None else 'no profile'}", key=f"route-at-load:{label}")
+        if kind in ("sam", "") and not user_cn:
+            okf = seen.get("minor_miss") == 2.5 and seen.get("gap") == 0.3
+            res.ob("C18.R1", g, g, okf, expected=f"{label}: options of the profile file apply (minor_miss 2.5) unless given explicitly (gap 0.3 over the file's 0.1)",
+                   found=f"minor_miss={seen.get('minor_miss')!r}, gap={seen.get('gap')!r}", key=f"route-options:{label}")
+        if user_cn and kind != "dump":
+            res.ob("C18.R1", g, g, seen.get("cn_solution") == user_cn, expected=f"{label}: the given structure reaches the profile", found=str(seen.get("cn_solution")),
+                   key=f"route-structure:{label}")
 
-    # (c) command line: _genotype.run forwards the --param pairs into genotype(**...)
-    run = repo.func("__main__::_genotype.run")
-    res.analysed(run)
-    gc = [x for x in calls_in(run) if call_name(x) == "genotype"]
-    ok = False
-    found = "no genotype(...) call"
-    if gc:
-        srcs = [ast.unparse(s) for v in star_kwargs(gc[0]) for s in merge_sources(v)]
-        found = "** sources: " + ", ".join(srcs)
-        ok = "params" in srcs
-    res.ob("C18.R1", run, gc[0] if gc else run, ok, expected="genotype(..., **<pairs parsed from --param>)",
-           found=found, key="cli-forward")
+    # (c) command line: _genotype folded whole -- the --param pairs reach genotype() as keyword arguments
+    cli = repo.func("__main__::_genotype")
+    res.analysed(cli)
+    got = []
+    args = Obj(cn_neutral_region=None, cn=None, file="in.bam", profile="illumina", simple=False, log=None, debug=None, solver="any", reference=None,
+               multiple_warn_level=1, genome=None, gene="g", output=None, param=[["gap=0.1", "min-coverage=3"], ["phase=false", "debug-probe=a=b"]])
+    try:
+        Lifted(cli, funcs={"parse_cn_region": lambda r: None, "genotype": lambda *a, **k: got.append(k), "vars": lambda o: dict(o.__dict__),
+                           "os.path.basename": os.path.basename})("g", None, args)
+    except Unfoldable as e:
+        res.err("C18.R1", f"command-line driver _genotype outside the folding language: {e}")
+        got = None
+    except Raised as e:
+        got = [("raise", str(e))]
+    if got is not None:
+        want = {"gap": "0.1", "min_coverage": "3", "phase": "false", "debug_probe": "a=b"}
+        ok = len(got) == 1 and isinstance(got[0], dict) and all(got[0].get(k_) == v_ for k_, v_ in want.items())
+        res.ob("C18.R1", cli, cli, ok, expected=f"--param gap=0.1 min-coverage=3 --param phase=false debug-probe=a=b reaches genotype(**{want})",
+               found=str({k_: got[0].get(k_) for k_ in want} if got and isinstance(got[0], dict) else got),
+               clause="set through the command line ... takes exactly the given value", key="cli-forward")
 
     # (d) profile command: params handed to get_sam_profile_data(params=...)
     mn = repo.func("__main__::main")
@@ -158,41 +179,7 @@ TYPES = dict(gap=float, neutral_value=float, threshold=float, min_coverage=float
              minor_add=float, minor_phase=float, minor_phase_vars=int, male=bool, max_minor_solutions=int,
              display_format=bool, debug_probe=str, debug_novel=bool, min_avg_coverage=float, vcf_sample_idx=int, indelpost=bool)
 NOT_PARAMETERS = {"name", "cn_region", "data", "cn_solution"}
-_GR = collections.namedtuple("GRange", ["chr", "start", "end"])
-
-
-class ProfileModel:
-    """The Profile class lifted into the folding language: constructor, typed update, file loader and profile
-    writer are the functions of /repo (sa.fold.Lifted, Python calling convention, defaults evaluated once); the file
-    system and the YAML library are replaced by an in-memory table of documents."""
-
-    def __init__(self, repo):
-        self.files = {}
-        model = self
-
-        class P(Obj):
-            _fold_ok = True
-
-            def update(me, *a, **k):
-                return model.update(me, *a, **k)
-
-        self.P = P
-        funcs = {"GRange": _GR, "natsorted": sorted, "defaultdict": collections.defaultdict, "Profile": self.new,
-                 "os.path.exists": lambda q: q in self.files, "os.path.isfile": lambda q: q in self.files,
-                 "os.path.splitext": os.path.splitext, "open": lambda q, *a: Obj(path=q),
-                 "yaml.safe_load": lambda f: copy.deepcopy(self.files[f.path]), "script_path": lambda q: q,
-                 "chr_prefix": lambda c, names: ""}
-        self.init = Lifted(repo.func("profile::Profile.__init__"), funcs)
-        self.update = Lifted(repo.func("profile::Profile.update"), funcs)
-        self.write = Lifted(repo.func("profile::Profile.get_sam_profile_data"), funcs)
-        funcs["Profile.get_sam_profile_data"] = self.write
-        self.load = Lifted(repo.func("profile::Profile.load"), funcs)
-        funcs["Profile.load"] = self.load
-
-    def new(self, *a, **kw):
-        me = self.P()
-        self.init(me, *a, **kw)
-        return me
+from checks._profile import _GR, ProfileModel  # noqa: E402
 
 
 GENE = Obj(name="G", genome="hg19", regions=[{"e1": _GR("22", 10, 20)}])
